@@ -53,19 +53,21 @@ class C09Spec(seqx.Spec):
 
 def main(tier, seed=0):
     t0 = time.time()
+    # (spec, which start states): the deep runs start from the empty cache, a shallower one from the reference-written
+    # cache with a torn record
     if tier == "quick":
-        runs = [C09Spec("astd", 5)]
+        runs = [(C09Spec("astd", 5), 0), (C09Spec("astd", 3), 1)]
     else:
-        runs = [C09Spec("astd", 6), C09Spec("tok", 5), C09Spec("sync", 6, sides=("s",))]
+        runs = [(C09Spec("astd", 6), 0), (C09Spec("astd", 5), 1), (C09Spec("tok", 5), 0), (C09Spec("tok", 4), 1), (C09Spec("sync", 6, sides=("s",)), 0)]
     total = None
     merr_all = []
     capped_any = False
-    for spec in runs:
-        agg, merr, capped, wall = seqx.bfs(spec, tier, level="model_checking", rule="", technique="", finish=False,
+    for spec, which in runs:
+        agg, merr, capped, wall = seqx.bfs(spec, tier, seeds=torn_seeds(spec)[which:which + 1], level="model_checking", rule="", technique="", finish=False,
                                            budget_s=200 if tier == "quick" else 2400)
         merr_all += merr
         capped_any |= capped
-        tag = "%s-depth%d" % (spec.flavour, spec.depth)
+        tag = "%s-depth%d-%s" % (spec.flavour, spec.depth, "from-empty" if which == 0 else "from-torn-record")
         total = merge(total, agg, tag)
     try:
         total = merge(total, rootforms_part(tier, seed), "cache-root-forms")
@@ -80,6 +82,24 @@ def main(tier, seed=0):
                       assumptions=["removing an absent address/entry may answer Ok or IoError but must not change the state",
                                    "remove_fully of an entry whose content is already gone fails and changes nothing (content unlink comes first)"],
                       seed=seed, capped=capped_any, jobs_done=len(runs), jobs_total=len(runs), exhaustive=not capped_any)
+
+
+def torn_seeds(spec):
+    """Start states: the empty cache, and a reference-written cache in which an interrupted append left a torn record
+    between two records of the first key (every reader skips it: removals appended later must hide the key everywhere)."""
+    vals = values()
+    a = spec.keys[0]
+    v = vals["d1"]
+    d = ref.gen(v["n"], v["tag"])
+    s1 = ref.sri("sha256", d)
+    r1 = {"key": a, "integrity": s1, "time": 3, "size": v["n"], "metadata": None, "raw_metadata": None}
+    r2 = {"key": a, "integrity": s1, "time": 4, "size": v["n"], "metadata": {"second": True}, "raw_metadata": None}
+    E = ref.encode_record
+    snap = {ref.bucket_rel(a): ("f", E(r1) + E(r2)[:37] + E(r2)), ref.content_rel(s1): ("f", d)}
+    ref.add_parent_dirs(snap)
+    m = seqx.new_model()
+    m.write(a, s1, d, size=v["n"], time=4, metadata={"second": True})
+    return [("empty", None, seqx.new_model()), ("ref-written: torn record between two records of the first key", snap, m)]
 
 
 def rootforms_part(tier, seed):
